@@ -192,6 +192,18 @@ def finish(mod, tier, seed, specs, results, t0):
     cov["solver_seconds"] = round(tot["solver_s"], 2)
     cov["cross_checked_with_cvc5"] = {"queries": tot["xchecked"], "disagreements": tot["xmismatch"]}
     cov["known_findings_matched"] = n_known
+    # vacuity guard over the whole run: items the harness declined to judge (program rejected by
+    # the front-end, outside the stated bounds, ...) are counted and explained; a run that skips
+    # more than the allowed share of its corpus decides nothing and is reported as inconclusive
+    skipped = [r for r in results if r["status"] == "skip"]
+    reasons = {}
+    for r in skipped:
+        k = "".join("N" if ch.isdigit() else ch for ch in str(r.get("note", ""))[:70])
+        reasons[k] = reasons.get(k, 0) + 1
+    cov["skipped_items"] = {"count": len(skipped), "reasons": dict(sorted(reasons.items(), key=lambda kv: -kv[1])[:12])}
+    max_skip = getattr(mod, "MAX_SKIP_FRACTION", 0.15)
+    if specs and len(skipped) > max_skip * len(specs):
+        inconclusive.append({"item": "-", "note": "%d of %d items skipped (> %d%%): %s" % (len(skipped), len(specs), int(max_skip * 100), cov["skipped_items"]["reasons"]), "spec": None})
     cov["inconclusive_items"] = inconclusive[:10]
     cov["inconclusive_count"] = len(inconclusive)
     cov["functions_encoded"] = getattr(mod, "FUNCS", [])
